@@ -17,26 +17,52 @@ SOURCES = ["src/allmydata/util/base32.py", "src/allmydata/util/base62.py", "src/
            "src/allmydata/storage/immutable_schema.py", "src/allmydata/storage/mutable_schema.py",
            "src/allmydata/storage/immutable.py", "src/allmydata/storage/mutable.py"]
 DESIGN_REF = "DESIGN.md §2 C38"
-TECHNIQUE = ("Lean 4 round-trip / canonicity / unique-decodability theorems over executable models of every codec "
-             "(radix arithmetic, struct pack/unpack, netstrings, UEB, lease records, container headers); differential "
-             "correspondence of encoders and decoders on edge values and mutation streams against the real functions; "
-             "implementation-side monitor: decode(encode v) == v and no malformed encoding is accepted")
-LEVEL_TEXT = ("decode∘encode = id under explicit range guards, canonicity (decode x = v → encode v = x) and prefix-freeness "
-              "proved in Lean for all inputs; models tied to the code by per-function correspondence incl. exception kinds; "
-              "alphabets, struct formats and sizes are extracted from the source and pinned by named theorems.")
-LEVEL_NOTE = ("Lean kernel + standard axioms; models hand-written and tied by correspondence; Python's struct, base64.b32decode, "
-              "int() and str(…, 'utf-8') are modelled (sampled, not verified); blake2b is an abstract function in the v2 lease theorems.")
-RULE = ("a case is one encoder or decoder call on one input (value at a range edge, random value, or a mutation of a valid "
-        "encoding: truncate / extend / flip / non-alphabet / non-canonical length); distinct = distinct (operation, input); "
+TECHNIQUE = ("Lean 4 theorems (56, Mathlib-free) over executable models of every codec in the statement — radix arithmetic, "
+             "struct pack/unpack, netstrings incl. the whole split_netstring loop, base32, base62, URI extension blocks incl. "
+             "UTF-8 key validity, lease records v1/v2 incl. renewal chains, immutable and mutable container headers: "
+             "decode(encode v) = v under explicit range guards, and exactness 'the decoder accepts exactly the image of the "
+             "encoder' (…_exact / …_canonical / …_accepted_iff); differential correspondence of every encoder and decoder "
+             "(values and exception kinds) on a fixed corpus, edge values and mutation streams against the real functions and "
+             "the real ShareFile / MutableShareFile containers; implementation-side monitor written from the statement: "
+             "decode(encode v) == v, and nothing that is not an encoding is accepted")
+LEVEL_TEXT = ("Proved in Lean for all inputs: round trips base32_decode_encode, base62_decode_encode, netstring_decode_encode, "
+              "netstring_split_concat, ueb_decode_encode, lease_immutable/mutable_decode_encode, lease_v2_decode_encode, "
+              "lease_renew_roundtrip(_mutable), immutable_header_decode_encode, immutable_header_known_versions, "
+              "mutable_header_decode_encode, mutable_header_fields; exactness base32_exact, base62_exact, netstring_exact, "
+              "netstring_split_canonical(_trailer), netstring_prefix_free, netstring_concat_unique, ueb_exact, utf8_accept_exact, "
+              "lease_immutable_exact, lease_mutable_exact, struct_canonical, immutable_header_canonical, mutable_header_canonical, "
+              "mutable_magic_exact, mutable_header_accepted_iff. Alphabets, length tables, struct formats, sizes, offsets and the "
+              "container magics are extracted from the source each run and pinned by named theorems (…_pinned). The models are "
+              "tied to the code by per-function correspondence including exception kinds. No _partial theorems.")
+LEVEL_NOTE = ("Lean kernel + standard axioms only; models hand-written and tied by correspondence. Modelled and sampled, not "
+              "verified: Python's struct, base64.b32decode, bytes.isdigit/re canonical-decimal checks and str(…, 'utf-8') (whose "
+              "model is proved to accept exactly the image of a UTF-8 encoder, utf8_accept_exact). blake2b enters "
+              "lease_v2_decode_encode as an explicit injectivity hypothesis. The decoder variants of the code before the four "
+              "repairs (Netstring.split pyLen with the int() model pyInt, Base32.a2b 1, Base62.a2b, Ueb.unpack asIs) are kept as "
+              "documentation with …_asis_counterexample evaluations; they are no longer compared with /repo except to label a "
+              "disagreement. The UEB decoder enforces neither key order nor the key pattern [a-zA-Z_-]+ (statement silent; "
+              "ueb_exact states exactly what is enforced); the immutable header's size field is saturated and documented as unused.")
+RULE = ("a case is one encoder or decoder call (or one renewal chain / container history for lease records) on one input: a "
+        "fixed-corpus input (one per seeded change and per repaired defect; VERIF_CORPUS_ONLY=1 runs only these), a value at a "
+        "range edge, a random value, or a mutation of a valid encoding (truncate / extend / flip / non-alphabet / non-canonical "
+        "length / duplicate or unsorted key / trailing bytes / damaged magic); distinct = distinct (operation, input); "
         "non-trivial = the input is not the empty string")
-TRUSTED = ["lean/Tahoe/Base/{Radix,Bytes,Struct,Netstring,Base32,Base62}.lean and lean/Tahoe/Codec/{Ueb,Records}.lean are hand "
-           "transcriptions of the Python functions named in their headers",
-           "the monitor's reference parsers in harness/props/c38.py (canonical netstring / UEB grammar)"]
-ASSUMPTIONS = ["assert statements are active (python is not run with -O): split_netstring / unpack_extension / base32.a2b reject through assert",
-               "lease expiration times are the integers int(expiration_time) (the record's documented 4-byte seconds field); float times are quantised by the encoder by design",
-               "lease secrets are 32 bytes and node ids 20 bytes (enforced by the storage protocol schemas); other lengths are silently padded/truncated by struct's 's' format and are outside the round-trip guard",
+TRUSTED = ["lean/Tahoe/Base/{Radix,Bytes,Struct,Netstring,Base32,Base62}.lean and lean/Tahoe/Codec/{Ueb,Utf8,Records}.lean are hand "
+           "transcriptions of the Python functions named in their headers (tied by correspondence, not by translation)",
+           "harness/extract_parts/encodings.py (alphabets, struct formats, sizes, offsets, magics read from the live source)",
+           "the monitor's reference parsers in harness/props/c38.py (canonical netstring / UEB grammar), hashlib.blake2b as the "
+           "reference for the v2 lease digests"]
+ASSUMPTIONS = ["assert statements are active (python is not run with -O): split_netstring's truncation / terminator checks and "
+               "unpack_extension's terminator check reject through assert",
+               "lease expiration times are the integers int(expiration_time) (the record's documented 4-byte seconds field); float "
+               "times are quantised by the encoder by design",
+               "lease secrets are 32 bytes and node ids 20 bytes (enforced by the storage protocol schemas); other lengths are "
+               "silently padded/truncated by struct's 's' format and are outside the round-trip guard (example after lease_immutable_exact)",
                "split_netstring is called with position >= 0",
-               "blake2b (v2 lease schema) is treated as an abstract function; the harness supplies hashlib.blake2b digests to the model"]
+               "blake2b (v2 lease schema) is injective on the secrets in use (hypothesis of lease_v2_decode_encode); the harness "
+               "supplies hashlib.blake2b digests to the model",
+               "UEB dictionaries hold integers exactly under the five integer keys and byte strings elsewhere (guard of "
+               "ueb_decode_encode; what pack_extension is given by the encoder)"]
 
 B32 = b"abcdefghijklmnopqrstuvwxyz234567"
 B62 = b"0123456789ABCDEFGHIJKLMNOPQRSTUVWXYZabcdefghijklmnopqrstuvwxyz"
@@ -1222,7 +1248,7 @@ def run(ctx):
                     else:
                         n_neither += 1
             if n_p or n_neither:
-                ctx.note("decoder cases where the implementation differs from the strict model: %d equal the lenient (as-is) "
+                ctx.note("decoder cases where the implementation differs from the checked (strict) model: %d equal the pre-repair (as-is) "
                          "model, %d equal neither" % (n_p, n_neither))
             ctx.count("lenient-model-agreement", n_p)
         for c, o in list(zip(cases, impl_outs))[:400:57]:
